@@ -786,7 +786,18 @@ func (e *Engine) loopCtx(p *Path, fr *Frame, li *loopInfo, pre *State) *EvalCtx 
 		pre = e.curEntry
 	}
 	ctx := e.funcCtx(p, fr, pre)
-	ctx.lookup = func(name string) (TV, bool) { return e.resolveLocal(p, fr, li.header, name) }
+	ctx.lookup = func(name string) (TV, bool) {
+		if tv, ok := e.resolveLocal(p, fr, li.header, name); ok {
+			return tv, true
+		}
+		return TV{}, false
+	}
+	ctx.unknown = func(name string) (TV, bool) {
+		if cur, ok := e.renamedLoopVar(fr.ct, fr, li, name); ok {
+			return e.resolveLocal(p, fr, li.header, cur)
+		}
+		return TV{}, false
+	}
 	// a parameter that the loop reassigns: inside loop clauses its name means the current value (the
 	// phi at the loop header), and NAME0 the value the function was entered with
 	for _, prm := range fr.fn.Params {
